@@ -41,7 +41,7 @@ MANIFEST = dict(
           'model of the index functions of tile, repeat (scalar / per-element / axis None, every accepted axis incl. negative), roll (any shift, one axis / '
           'several axes incl. repeated ones = summed shifts / None), pad, take (negative and repeated entries, negative axes, None), concatenate, resize, '
           'compress, tril/triu, diagflat, tri/eye/identity, the stack family (through concatenate + flat-order preservation of reshape); one-axis / '
-          'equal-section cases of expand, sliding_window and split; diagonal for every rank, accepted axis pair (incl. negative) and offset. The model is tied to the '
+          'cases of expand; split into equal sections and at cut-point lists (incl. the partition of the axis); sliding_window with scalar / list windows over axis / axis lists (repeats accumulate) / None; diagonal for every rank, accepted axis pair (incl. negative) and offset. The model is tied to the '
           'C++ by a differential run of every view over an exhaustive small scope on every check and cross-checked against NumPy / the documented '
           'definitions. The defects found on the original tree (negative axis in repeat / take / concatenate / stack / compress, negative take '
           'entries, repeated roll axes, diagonal with negative or too large offset, split cut points beyond the extent, arange negative count / negative '
@@ -59,7 +59,7 @@ ASSUMPTIONS = [
 ]
 PARTIAL = [
     'expand_*: proved for one axis (any accepted sign); several axes / per-axis spacings under correspondence only',
-    'slidingWindow_*: proved for a scalar window on one axis; window lists, axis lists and axis None under correspondence only',
+    'sliding_window: scalar window with axis None is NumPy-defined for rank 1 only (slidingWindowScalarNone_rank1); for higher ranks the C++ accepts the call (every axis shrinks, one window axis added to axis 0) — no reference, model mirrors it, not generated',
     'splitIdx_*: cut points >= 0 (a negative cut point wraps to a huge size_t in the C++ and means from-the-end in NumPy: outside the domain); splitIdx_partition additionally needs sorted cut points',
     'where, arange, linspace, full/zeros/ones(_like): no theorem (where: plumbing over broadcast, C06/C07; generators: IMPL vs NumPy only)',
     'per-element repeats with axis None: does not instantiate in nmtools (shape_repeat multiplies the product by the repeats list); not runnable, not claimed',
